@@ -1087,10 +1087,65 @@ def register(an):
             'core::iter::traits::iterator::Iterator::sum', 'core::iter::traits::iterator::Iterator::collect', 'core::iter::traits::iterator::Iterator::last',
             'core::iter::traits::iterator::Iterator::max', 'core::iter::traits::iterator::Iterator::min', 'core::iter::traits::iterator::Iterator::try_fold',
             'core::iter::traits::iterator::Iterator::try_for_each', 'core::iter::traits::iterator::Iterator::nth')
+    def concrete_items(an, it, frame, st, t):
+        """the items of a short iterator chain over a slice of known length, one by one (None when not enumerable: unknown length,
+        a filter whose verdict on some element is not a constant, an unmodelled adapter)"""
+        k = it[1]
+        if k == 'slice':
+            sr = it[2]
+            if sr[0] != 'sref' or not sr[3].is_const() or not (0 <= sr[3].k <= 16):
+                return None
+            return [('ref', ('E', sr, Lin.const(i))) for i in range(sr[3].k)]
+        if k in ('rev', 'copied', 'cloned', 'enumerate', 'map', 'filter', 'fuse'):
+            inner = concrete_items(an, it[2], frame, st, t)
+            if inner is None:
+                return None
+            if k == 'rev':
+                return list(reversed(inner))
+            if k == 'fuse':
+                return inner
+            if k in ('copied', 'cloned'):
+                return [deref_val(an, a, frame, st) for a in inner]
+            if k == 'enumerate':
+                return [('tuple', (V_const(i), a)) for i, a in enumerate(inner)]
+            out = []
+            for a in inner:
+                if k == 'map':
+                    r = call_closure(an, it[3], [a], frame, st, t)
+                    if r is None:
+                        return None
+                    out.append(r)
+                else:
+                    tmp = ('L', frame.id, 10**6 + int(an.nid().rsplit(':', 1)[1]), ())
+                    st.env[(frame.id, tmp[2])] = a
+                    r = call_closure(an, it[3], [('ref', tmp)], frame, st, t)
+                    if r is None or r[0] != 'bool' or not (isinstance(r[1], tuple) and r[1][:1] == ('const',)):
+                        return None
+                    if r[1][1]:
+                        out.append(a)
+            return out
+        return None
+
     def m_consume(an, t, args, frame, st, c):
         nm = c['fn'].split('::')[-1]
         it = to_iter(an, args[0], frame, st)
         an.loop_iterators.add((frame.body.path, t.sp))
+        if nm == 'fold' and len(args) == 3 and args[2][0] == 'closure' and not any(True for cap in args[2][2] if cap[0] == 'ref' and False):
+            # a fold over a short, fully known sequence is unrolled (exact); anything else takes the abstract route below
+            s3 = st.copy()
+            try:
+                items = concrete_items(an, it, frame, s3, t)
+                acc = args[1]
+                if items is not None:
+                    for a in items:
+                        acc = call_closure(an, args[2], [acc, a], frame, s3, t)
+                        if acc is None:
+                            break
+                    if acc is not None:
+                        st.env, st.mem, st.lo, st.hi, st.sets, st.cons = s3.env, s3.mem, s3.lo, s3.hi, s3.sets, s3.cons
+                        return acc
+            except Exception:
+                pass
         # run the element pipeline once on an abstract item (twice, to let state-carrying closures reach a fixpoint-ish)
         s2 = st.copy()
         item = iter_item(an, it, frame, s2, t)
